@@ -24,8 +24,8 @@ RULE = ('one case = (prime p, operation incl. parameters, coefficient array(s) w
         'thorough: GF(5): ALL pairs of arrays of length <= 3 (156^2) for every binary operation; GF(7): all 400^2 pairs for + - * == != '
         '// % divmod < <= > >= gcd and the public-operand forms, gcdext/invert/powmod/if_else on all pairs of length <= 2 plus the '
         'length-3 arrays over {0,1,3,6}; GF(509): arrays over {0,1,2,254,508} (length <= 2) and {0,1,508} (length 3); every unary '
-        'operation x every parameter value on all arrays.  quick: GF(5) all pairs of length <= 2 plus length-3 arrays over {0,1,4}; '
-        'GF(7), GF(509) arrays over {0,1,p-1}.  Masks: seeded for every case; all-zero / all-max for the pairs over {0,1,p-1} of '
+        'operation x every parameter value on all arrays.  quick: GF(5) all pairs of length <= 2 (ring operations also with the length-3 '
+        'arrays over {0,1,4}; gcdext/invert/powmod on arrays over {0,1,4}); GF(7), GF(509) arrays over {0,1,p-1}.  Masks: seeded for every case; all-zero / all-max for the pairs over {0,1,p-1} of '
         'length <= 2 (quick) / all pairs of length <= 2 (thorough, GF(5)).  Documented preconditions (divisor != 0, inverse exists, '
         '-1 <= secret d <= len-1) not met => case not evaluated, except that the documented exceptions are demanded. '
         'non-trivial = the operation drew randomness or has more than one party or a non-constant operand')
@@ -71,23 +71,24 @@ def edge(p):
 def domains(p, tier):
     """dict: 'all' (unary + cheap binary), 'mid' (division/comparison/gcd), 'heavy' (gcdext/invert/powmod/if_else), 'modes'."""
     full = list(range(p))
+    e = edge(p)
+    extra3 = [(1, 0, e[2]), (0, 0, 1), (e[2], 1, 0), (0, 0, 0)]
     if p == 5:
         if tier == 'thorough':
             a = arrays(full, 3)
             return dict(all=a, mid=a, heavy=a, modes=arrays(full, 2))
-        a = arrays(full, 2) + arrays(edge(p), 3, 3)
-        return dict(all=a, mid=a, heavy=a, modes=arrays(edge(p), 2))
+        return dict(all=arrays(full, 2) + arrays(e, 3, 3), mid=arrays(full, 2) + extra3 + [(1, 1, 1), (0, e[2], 1)],
+                    heavy=arrays(e, 2) + extra3, modes=arrays(e, 2))
     if p == 7:
         if tier == 'thorough':
             a = arrays(full, 3)
-            return dict(all=a, mid=a, heavy=arrays(full, 2) + arrays([0, 1, 3, 6], 3, 3), modes=arrays(edge(p), 2))
-        a = arrays(edge(p), 3)
-        return dict(all=a, mid=a, heavy=arrays(edge(p), 2), modes=arrays(edge(p), 1))
+            return dict(all=a, mid=a, heavy=arrays(full, 2) + arrays([0, 1, 3, 6], 3, 3), modes=arrays(e, 2))
+        return dict(all=arrays(e, 3), mid=arrays(e, 2) + extra3, heavy=arrays(e, 2), modes=arrays(e, 1))
     if tier == 'thorough':
-        a = arrays([0, 1, 2, 254, 508], 2) + arrays(edge(p), 3, 3)
-        return dict(all=a, mid=a, heavy=arrays(edge(p), 2) + arrays([1, 508], 3, 3), modes=arrays(edge(p), 2))
-    a = arrays(edge(p), 2) + [(1, 0, 508), (0, 0, 1), (508, 1, 0), (0, 0, 0)]
-    return dict(all=a, mid=a, heavy=arrays(edge(p), 2), modes=arrays(edge(p), 1))
+        a = arrays([0, 1, 2, 254, 508], 2) + arrays(e, 3, 3)
+        return dict(all=a, mid=a, heavy=arrays(e, 2) + arrays([1, 508], 3, 3), modes=arrays(e, 2))
+    a = arrays(e, 2) + extra3
+    return dict(all=a, mid=a, heavy=arrays(e, 1) + [(1, 508), (0, 1), (508, 1, 0)], modes=arrays(e, 1))
 
 
 def points(p):
